@@ -177,13 +177,15 @@ def brute(infr, infr2, inam2, e1, e2, mode):
 
 def _layout(x, how):
     """the same values in another memory layout (the spectrum is a function of the values only)"""
-    x = np.asarray(x, float)
+    x = np.asarray(x)
+    if x.dtype == object or x.dtype.kind not in 'fiub':
+        x = np.asarray(x, float)
     if how == 'F':
         return np.asfortranarray(x.copy())
     if how == 'moveaxis' and x.ndim >= 2:           # stored with the last axis first, viewed in the documented order
         return np.moveaxis(np.ascontiguousarray(np.moveaxis(x, -1, 0)), 0, -1)
     if how == 'strided':
-        big = np.full(tuple(2 * n for n in x.shape), -7.0)
+        big = np.full(tuple(2 * n for n in x.shape), -7, dtype=x.dtype)
         big[tuple(slice(None, None, 2) for _ in x.shape)] = x
         return big[tuple(slice(None, None, 2) for _ in x.shape)]
     return x.copy()
@@ -195,7 +197,14 @@ def replay(w):
         return False, 'unknown witness kind'
     f1, f2, a2 = np.array(w['infr'], float), np.array(w['infr2'], float), np.array(w['inam2'], float)
     e1, e2 = np.array(w['edges1'], float), np.array(w['edges2'], float)
-    full = brute(f1, f2, a2, e1, e2, w['mode'])
+    # carrier / AM frequencies stored as integers (whole Hz) or in single precision, amplitudes in single precision: the spectrum is that of
+    # the stored values against the caller's float64 edges
+    if w.get('dtype_f'):
+        f1, f2 = f1.astype(w['dtype_f']), f2.astype(w['dtype_f'])
+    if w.get('dtype_a'):
+        a2 = a2.astype(w['dtype_a'])
+    tol = 1e-12 if not w.get('dtype_a') else 2e-6
+    full = brute(f1.astype(float), f2.astype(float), a2.astype(float), e1, e2, w['mode'])
     lay = w.get('layout', 'C')
     msgs = []
     for sq, exp in ((False, full), ('sum', full.sum(axis=0)), ('mean', full.mean(axis=0))):
@@ -207,7 +216,7 @@ def replay(w):
         got = np.asarray(got)
         if got.shape != exp.shape:
             msgs.append('squash_time=%r: shape %s, expected %s' % (sq, got.shape, exp.shape))
-        elif not np.allclose(got, exp, rtol=1e-12, atol=1e-12):
+        elif not np.allclose(got, exp, rtol=tol, atol=tol):
             msgs.append('squash_time=%r: %s differs from the triple-loop histogram %s' % (sq, np.round(got, 5).tolist(), np.round(exp, 5).tolist()))
     if msgs:
         return True, ('; '.join(msgs))[:600] + ' (infr=%s infr2=%s e1=%s e2=%s %s)' % (f1.tolist(), f2.tolist(), e1.tolist(), e2.tolist(), w['mode'])
@@ -255,5 +264,30 @@ def refute(tier, seed, emit):
         ok, msg = replay(w)
         if ok:
             emit.violation('each-sample-in-exactly-its-cell' + ('' if lay == 'C' else ':memory-layout'), w, msg[:300])
+        if emit.full:
+            return
+    # integer-valued (whole Hz) and single-precision frequencies against float64 edges that are not representable in that dtype
+    emit.scope('integer-valued (int64, int32) and single-precision carrier / AM frequency arrays [T 4..20 x M 1..2 x K 1..2] x fractional float64 edges (x.5 for the integers, tenths for float32; values on and next to edges) x {energy, amplitude}; amplitudes float64 and float32')
+    rr = rng(seed, 111)
+    for q in range(18 if tier == 'quick' else 180):
+        Tn, M, K = int(rr.randint(4, 21)), int(rr.randint(1, 3)), int(rr.randint(1, 3))
+        dtf = ['int64', 'int32', 'float32'][q % 3]
+        if dtf.startswith('int'):
+            e1 = np.arange(0, 6) + 0.5
+            e2 = np.array([0.5, 1.5, 3.5])
+            f1 = rr.randint(-1, 7, size=(Tn, M)).astype(float)
+            f2 = rr.randint(-1, 5, size=(Tn, M, K)).astype(float)
+        else:
+            e1 = np.linspace(0.1, 0.9, 9)
+            e2 = np.linspace(0.2, 0.6, 5)
+            f1 = rr.choice(np.r_[e1, e1[:-1] + 0.05, [0.0, 1.0]], size=(Tn, M))
+            f2 = rr.choice(np.r_[e2, e2[:-1] + 0.05, [0.0, 1.0]], size=(Tn, M, K))
+        a2 = rr.rand(Tn, M, K) + 0.25
+        emit.case(('dtype', q), nontrivial=True, contract='holospectrum')
+        w = {'kind': 'holo', 'infr': f1.tolist(), 'infr2': f2.tolist(), 'inam2': a2.tolist(), 'edges1': e1.tolist(), 'edges2': e2.tolist(), 'mode': 'energy' if q % 4 < 2 else 'amplitude',
+             'dtype_f': dtf, 'dtype_a': 'float32' if q % 5 == 0 else None}
+        ok, msg = replay(w)
+        if ok:
+            emit.violation('each-sample-in-exactly-its-cell:%s-frequencies' % dtf, w, msg[:400])
         if emit.full:
             return
